@@ -35,13 +35,42 @@ LEVEL_NOTE = "CPU host-device emulation only; no real accelerator"
 ROOT = os.path.dirname(os.path.dirname(os.path.abspath(__file__)))
 
 
+def _scene(rng):
+    return specgen.rand_scene(rng, T=(6, 14), shape=(6, 12), pml=(2, 3), p_nonuniform=0.3, tiers=("iso", "diag"), sigma_e=True)
+
+
 def generate(rng, tier, index):
-    spec = specgen.rand_scene(rng, T=(6, 14), shape=(4, 8), pml=(2, 3), p_nonuniform=0.3, tiers=("iso", "diag"), sigma_e=True)
+    spec = _scene(rng)
     # x size multiple of 4: rebuild dependent pieces by regenerating until it fits
     for _ in range(200):
         if spec["shape"][0] % 4 == 0:
             break
-        spec = specgen.rand_scene(rng, T=(6, 14), shape=(4, 8), pml=(2, 3), p_nonuniform=0.3, tiers=("iso", "diag"), sigma_e=True)
+        spec = _scene(rng)
+    # two scenes in three get placed static objects that exercise the *sharded* material writes of placement: two boxes of
+    # identical size at different positions, and (uniform grids) an ellipsoid whose bounding box spans at least three of the
+    # four x-shards - per-cell random arrays written by the harness would bypass that code
+    if rng.uniform() < 0.67:
+        shape = spec["shape"]
+
+        def mat():
+            m = {"permittivity": float(rng.uniform(1.5, 6.0))}
+            if rng.uniform() < 0.4:
+                m["electric_conductivity"] = float(rng.uniform(0.01, 0.3))
+            return m
+
+        size = [int(rng.integers(2, max(3, n // 2 + 1))) for n in shape]
+        objs = []
+        for i in range(2):
+            lo = [int(rng.integers(0, n - sz + 1)) for n, sz in zip(shape, size)]
+            objs.append({"kind": "box", "name": f"twin{i}", "box": [[a, a + sz] for a, sz in zip(lo, size)], "material": mat(), "order": i})
+        if spec["grid"]["kind"] == "uniform":
+            sizes = [shape[0] - int(rng.integers(0, 2)), int(rng.integers(2, shape[1] + 1)), int(rng.integers(2, shape[2] + 1))]
+            lo = [int(rng.integers(0, n - sz + 1)) for n, sz in zip(shape, sizes)]
+            radii = [0.49 * sz * specgen.SPACING for sz in sizes]
+            objs.append({"kind": "sphere", "name": "blob", "box": [[a, a + sz] for a, sz in zip(lo, sizes)], "radius": radii[0], "radii": radii, "material": mat(), "order": 2})
+        for i in range(int(rng.integers(0, 3))):
+            objs.append({"kind": "box", "name": f"m{i}", "box": specgen.rand_box(rng, shape, min_size=1), "material": mat(), "order": 3 + i})
+        spec["materials"] = {"mode": "objects", "objects": objs}
     spec["counts"] = [1, 2, 4, 4]
     return spec
 
@@ -87,6 +116,8 @@ def execute(spec):
     d, k = dr.dict_rel_diff({k: v for k, v in outs[-2].items() if not k.startswith("meta/")}, {k: v for k, v in outs[-1].items() if not k.startswith("meta/")})
     resid["repeat_4_devices"] = d
     stats["probe_bitwise_repeat"] = int(d == 0.0)
+    stats["probe_twin_boxes"] = int(any(o["name"] == "twin0" for o in spec["materials"].get("objects", [])))
+    stats["probe_ellipsoid_over_three_shards"] = int(any(o["name"] == "blob" for o in spec["materials"].get("objects", [])))
     sig = specgen.scene_signature(spec)
     digest = dr.digest_arrays({k: np.round(v / (np.max(np.abs(v)) or 1.0), 9) for k, v in ref.items() if v.dtype.kind in "fc"}) + ":" + ",".join(f"{k}={dr.sig3(v)}" for k, v in sorted(resid.items())) + f":v{len(viol)}"
     return {"violations": viol, "stats": stats, "residuals": resid, "nontrivial": nontrivial, "signature": sig, "digest": digest}
